@@ -97,6 +97,7 @@ class SSim(c06.JSim):
 
     def __init__(self, cfg, workdir, mode):
         self.mode = mode
+        self.older_reload = set()
         self.m = {'count': 0, 'chain': 0, 'kv': {}, 'd': {}, 'l': [], 'c': 0, 'x': 0, 'ver': 0}
         self.idmap = None
         self.user_state = {}
@@ -127,6 +128,10 @@ class SSim(c06.JSim):
                 obj = self.nodes.get(name) or self.starting
                 with open(path, 'rb') as f:
                     blob = stdpickle.load(f)
+                if name in self.nodes and blob['meta'][0][1] <= obj.raftLastApplied:
+                    # known finding: a snapshot that is not newer than the state (the leader re-sends until it is
+                    # acknowledged) cannot be recognised before the user's deserializer has overwritten the state
+                    self.older_reload.add(name)
                 obj.count, obj.chain, obj.kv = blob['attrs'][0], blob['attrs'][1], dict(blob['attrs'][2])
                 for c, data in zip((obj.d, obj.l, obj.c, obj.x), blob['cons']):
                     c._deserialize(data)
@@ -144,9 +149,18 @@ class SSim(c06.JSim):
             conf.serializer, conf.deserializer, conf.serializeChecker = serializer, deserializer, checker
         return conf
 
+    def _build_idmap(self, obj):
+        self.idmap = {}
+        for fid, meth in obj._idToMethod.items():
+            owner = meth.__self__
+            oname = 'o' if owner is obj else {id(obj.d): 'd', id(obj.l): 'l', id(obj.c): 'c', id(obj.x): 'x'}[id(owner)]
+            self.idmap[fid] = (oname, meth.__name__)
+
     def start_node(self, name, others=None):
         self.starting = None
         obj = super(SSim, self).start_node(name, others)
+        if getattr(self, 'idmap', None) is None:
+            self._build_idmap(obj)      # while a node exists: the first decode may come when all of them are dead
         return obj
 
     # -- model
@@ -164,12 +178,7 @@ class SSim(c06.JSim):
         if cmd[:1] != b'\x00':
             return None
         if self.idmap is None:
-            obj = list(self.nodes.values())[0]
-            self.idmap = {}
-            for fid, meth in obj._idToMethod.items():
-                owner = meth.__self__
-                oname = 'o' if owner is obj else {id(obj.d): 'd', id(obj.l): 'l', id(obj.c): 'c', id(obj.x): 'x'}[id(owner)]
-                self.idmap[fid] = (oname, meth.__name__)
+            self._build_idmap(list(self.nodes.values())[0])
         c = ppickle.loads(cmd[1:])
         fid, args = (c[0], tuple(c[1])) if isinstance(c, tuple) else (c, ())
         oname, mname = self.idmap[fid]
@@ -450,12 +459,20 @@ def run_case(case):
                 sim.op_restart(0, 0, 0)
                 sim.check(light=True)
             ok = False
-            for i in range(1500):
+            progress, stalled = None, 0
+            for i in range(30000):
                 if mode == 'fork' and i % 5 == 0:
                     op_opengate(0, 0, 0)
                 sim.calm_round()
                 sim.check(light=True)
                 if sim.viol:
+                    break
+                # bounded by lack of progress, not by a number of rounds: with generated 1-2 byte chunks and 20 ms
+                # per send a transfer of a big state legitimately takes thousands of rounds
+                now = (sim.snapshot_msgs, tuple(sim.nodes[n].raftLastApplied for n in sim.live()), tuple(sim.nodes[n].raftCurrentTerm for n in sim.live()))
+                stalled = stalled + 1 if now == progress else 0
+                progress = now
+                if stalled >= 1500:
                     break
                 live = sim.live()
                 top = max(sim.nodes[n].raftCommitIndex for n in live)
@@ -463,7 +480,7 @@ def run_case(case):
                     ok = True
                     break
             if not own() and not ok and not sim.viol:
-                sim.V('C09', 'follower-not-brought-up-to-date', 'after 30 virtual seconds without faults applied indices are %r (commit %r), escaped %r' % (
+                sim.V('C09', 'follower-not-brought-up-to-date', 'after 1500 rounds (30 virtual seconds) without faults and without progress applied indices are %r (commit %r), escaped %r' % (
                     dict((n, sim.nodes[n].raftLastApplied) for n in sim.live()), dict((n, sim.nodes[n].raftCommitIndex) for n in sim.live()), sim.escaped[-2:]))
         classes = simprop.base_classes(sim)
         classes.add('mode=' + mode)
@@ -485,7 +502,11 @@ def run_case(case):
         res.violation = None
         o = own()
         if o:
-            sig_of = lambda v: v[1] if v[0] == PROP else '%s:%s' % (v[0], v[1])
+            def sig_of(v):
+                s_ = v[1] if v[0] == PROP else '%s:%s' % (v[0], v[1])
+                if sim.older_reload and v[0] == 'C01' and v[1] == 'position-executed-again-or-out-of-order':
+                    s_ += ':older-snapshot-reloaded-by-user-deserializer'
+                return s_
             unknown = [v for v in o if findings.match(PROP, sig_of(v)) is None]
             v = unknown[0] if unknown else o[0]
             res.violation = (sig_of(v), v[2] + ' [mode %s, chunk %d, journal %s]' % (mode, cfg['compact_chunk'], cfg['journal']))
